@@ -41,4 +41,8 @@ func init() {
 	alias("C05", "R14", "C18", "R5", "after a crash inside the state store's save the node must go on committing: the state record is written last, so a state on disk always has its validator and parameter records")
 	alias("C06", "R11", "C07", "R5", "a block built by a correct proposer passes validation only if the last commit it carries verifies: commit construction must agree with commit verification")
 	alias("C14", "R8", "C08", "R8", "the node bootstraps from exactly the light-verified state: the validator records written for H-1, H, H+1 are the verified sets of that state, not recomputed ones")
+	alias("C07", "R8", "C13", "R1", "block sync is a commit-verification entry point: the commit must be verified for exactly the id of the block being accepted (its own hash and part-set header), under the running state's validators")
+	alias("C04", "R9", "C15", "R6", "the lock survives a crash only if replay finds the marker of the previous height: the end-height search may give up early only after a real, lower marker")
+	alias("C04", "R10", "C15", "R9", "the lock survives a crash only if replay starts from the right marker")
+	alias("C04", "R11", "C15", "R10", "the lock survives a second crash only if the first one's torn tail is repaired: replay must hand every corruption error back")
 }
